@@ -103,9 +103,9 @@ def run_case(case, ctx):
             return Tt[tuple(J[:, kcol] for kcol in range(d))]
         kw = {'eps': eps}
         if start is not None:
-            invoke = lambda: ctx.lib('dmrg_cross(start)', lambda s: torchtt.interpolate.dmrg_cross(fun, list(N), x_start=s, **kw), start)
+            invoke = lambda: ctx.lib('dmrg_cross(start)', lambda s: torchtt.interpolate.dmrg_cross(fun, tuple(N) if case.get('sidx', 0) % 2 else list(N), x_start=s, **kw), start)
         else:
-            invoke = lambda: ctx.lib('dmrg_cross', lambda: torchtt.interpolate.dmrg_cross(fun, list(N), **kw))
+            invoke = lambda: ctx.lib('dmrg_cross', lambda: torchtt.interpolate.dmrg_cross(fun, tuple(N) if case.get('sidx', 0) % 2 else list(N), **kw))
         y = invoke()
     elif routine == 'interp_uni':
         # argument tensor = the flat index of every entry (int-valued, TT rank 2); f = table lookup
